@@ -100,6 +100,9 @@ class Driver(object):
             else:
                 st = 'OPEN "%s" FOR %s AS %d' % (a['name'], word, n)
             e.update(name=a['name'], mode=a['mode'])
+            if a['mode'] in ('I', 'A'):
+                # nobody is writing the file: the host file is stable and LOF can be compared with its size
+                hostnames = [a['name']]
         elif op == 'close':
             st = 'CLOSE %d' % n
             if n in self.open:
